@@ -6,26 +6,12 @@
 (*                                                                            *)
 (*   undirected  Q = 1/2m SUM_ij [A_ij - gamma k_i k_j / 2m] delta(c_i, c_j)  *)
 (*   directed    Q = 1/m  SUM_ij [A_ij - gamma k_i^in k_j^out / m] delta(..)  *)
-EXTENDS Network
+EXTENDS Network, Modularity
 
 A(i, j) == IF Adj(i, j) THEN W(i, j) ELSE 0
 
-\* a: adjacency matrix, ki/ko: in/out weight sums, m: their total (undirected: 2m of the
-\* documentation, directed: m).  c: labeling V -> labels.  The double sum runs over the
-\* ordered pairs with equal labels.
-QLabel(c, g, a, ki, ko, m) ==
-  LET same == {ij \in V \X V : c[ij[1]] = c[ij[2]]}
-      sa == MapThenSumSet(LAMBDA ij : a[ij[1], ij[2]], same)
-      sk == MapThenSumSet(LAMBDA ij : ki[ij[1]] * ko[ij[2]], same)
-  IN  R(m * sa * g[2] - g[1] * sk, m * m * g[2])
-
-\* the same quantity summed community by community (the form used by CommunityTrace.tla)
-QComm(P, g, a, ki, ko, m) ==
-  RSumF([S \in P |->
-     LET w  == MapThenSumSet(LAMBDA ij : a[ij[1], ij[2]], S \X S)
-         si == MapThenSumSet(LAMBDA i : ki[i], S)
-         so == MapThenSumSet(LAMBDA i : ko[i], S)
-     IN  RSub(R(w, m), RMul(R(g[1], g[2]), R(si * so, m * m)))])
+\* the defining double sum and its community-wise form live in Modularity.tla
+QLabel(c, g, a, ki, ko, m) == QLabelV(V, c, g, a, ki, ko, m)
 
 \* every partition of V as a restricted growth string (label of node 1 is 1,
 \* each next label at most one more than the largest so far)
